@@ -73,6 +73,7 @@ class C04(Prop):
                     res.append(("agent:not-forwarded", "request %s was served without error by the proxy but never forwarded" % i, rp))
                 if h["fetch_attempts"].get(i, 0) > 3 and inside:
                     res.append(("agent:too-many-fetch-attempts", "request %s was fetched %d times" % (i, h["fetch_attempts"][i]), rp))
+        res += servsched.oracle_crash(obs["server"])
         for s in obs["server"]["schedules"]:
             res += servsched.oracle_handoff(s)
         return res
